@@ -2396,6 +2396,236 @@ def r10(cx):
     cx.floor(roles['printer'], 1, 'keyword lookups in the printer (first_word_is_keyword)')
 
 
+# ---------------------------------------------------------------------------------------------------------------
+# R11: the shape predicates of SimpleCommand, decided by evaluating their HIR on every shape
+from rules.C01 import Interp as _HInterp, MutStruct as _HMutStruct, Undecidable as _HUndecidable, V as _HV, is_variant as _h_is_variant
+
+_SC = 'yash_syntax::syntax::SimpleCommand'
+_OPT_SOME, _OPT_NONE = 'core::option::Option::Some', 'core::option::Option::None'
+
+
+class _ShapeInterp(_HInterp):
+    """rules/C01.Interp plus what a predicate over the three vectors of a SimpleCommand may use: slice patterns, and the
+    std accessors of Vec / slice / Rc whose meaning is fixed (as_slice, first, last, get, iter, deref, as_ref, ...)."""
+
+    _IDENT = re.compile(r'(::as_slice|::as_ref|::deref|::borrow|::iter|::as_mut_slice|::as_mut|::deref_mut|::iter_mut|::clone)$')
+
+    def __init__(self, F, fuel=4000):
+        _HInterp.__init__(self, F, self._extern, fuel)
+
+    def _extern(self, name, recv, args, node):
+        name = str(name)
+        vals = ([recv] if recv is not None else []) + list(args)
+        if vals and isinstance(vals[0], list):
+            v = vals[0]
+            if self._IDENT.search(name) and len(vals) == 1:
+                return v
+            if re.search(r'::(first|split_first)$', name) and len(vals) == 1:
+                if not v:
+                    return _HV(_OPT_NONE)
+                return _HV(_OPT_SOME, v[0] if name.endswith('::first') else ('T', (v[0], v[1:])))
+            if re.search(r'::(last|split_last)$', name) and len(vals) == 1:
+                if not v:
+                    return _HV(_OPT_NONE)
+                return _HV(_OPT_SOME, v[-1] if name.endswith('::last') else ('T', (v[-1], v[:-1])))
+            if name.endswith('::get') and len(vals) == 2 and isinstance(vals[1], int):
+                return _HV(_OPT_SOME, v[vals[1]]) if 0 <= vals[1] < len(v) else _HV(_OPT_NONE)
+            if re.search(r'::(len|count)$', name) and len(vals) == 1:
+                return len(v)
+            if name.endswith('::is_empty') and len(vals) == 1:
+                return len(v) == 0
+        if len(vals) == 1 and isinstance(vals[0], _HMutStruct) and vals[0].path == _SC and name.startswith(_SC + '::') and name in self.F.hir:
+            return _ShapeInterp(self.F, self.fuel).call_fn(name, [vals[0]])      # a sibling predicate
+        raise _HUndecidable('call of %s' % name)
+
+    def bind(self, p, v, env):
+        if p.get('k') == 'pslice':
+            if not isinstance(v, list):
+                raise _HUndecidable('slice pattern against %r' % (v,))
+            before, after, mid = p.get('before') or [], p.get('after') or [], p.get('mid')
+            if len(v) < len(before) + len(after) or (mid is None and len(v) != len(before) + len(after)):
+                return False
+            if not all(self.bind(sp, sv, env) for sp, sv in zip(before, v)):
+                return False
+            if after and not all(self.bind(sp, sv, env) for sp, sv in zip(after, v[len(v) - len(after):])):
+                return False
+            return mid is None or self.bind(mid, v[len(before):len(v) - len(after)], env)
+        return _HInterp.bind(self, p, v, env)
+
+
+def _r11_shapes(F):
+    adt = F.adts.get(_SC)
+    fields = [f['name'] for f in adt['variants'][0]['fields']] if adt and adt.get('variants') else []
+    out = []
+    for na in (0, 1, 2):
+        for nw in (0, 1, 2):
+            for nr in (0, 1, 2):
+                n = {'assigns': na, 'words': nw, 'redirs': nr}
+                out.append((n, lambda n=n: _HMutStruct(_SC, {
+                    'assigns': [('O', 'assign%d' % i) for i in range(n['assigns'])],
+                    'words': [('T', (('O', 'word%d' % i), ('O', 'mode%d' % i))) for i in range(n['words'])],
+                    'redirs': [('O', 'redir%d' % i) for i in range(n['redirs'])]})))
+    return fields, out
+
+
+@RS.rule('C06.R11', 'K-TABLE+K-GUARD', 'the shape predicates of SimpleCommand say what their names say on every shape: is_one_word() is true exactly '
+         'for no assignment, ONE word, no redirection; is_empty() exactly for nothing at all - and the parser takes the single word out of a '
+         'command as a function name only where is_one_word() answered true (what it then drops must be empty)')
+def r11(cx):
+    F = cx.F
+    fields, shapes = _r11_shapes(F)
+    cx.require(sorted(fields) == ['assigns', 'redirs', 'words'],
+               'SimpleCommand no longer consists of exactly assigns / words / redirs (%s): the shape table of R11 must be redone' % fields)
+    table = {
+        _SC + '::is_one_word': (lambda n: n['assigns'] == 0 and n['words'] == 1 and n['redirs'] == 0, 'one-word',
+                                'the parser then reads `name()` as a function definition, pops the word and DROPS the rest of the command '
+                                '(`>x foo() { :; }` panics on debug_assert!(intro.is_empty()) in debug builds and silently loses `>x` in release '
+                                'builds; `a=1 foo() {..}` / two words likewise)',
+                                'a plain `foo() { :; }` is no longer recognised as a function definition'),
+        _SC + '::is_empty': (lambda n: n['assigns'] == 0 and n['words'] == 0 and n['redirs'] == 0, 'empty',
+                             'a command made only of what is ignored is treated as no command at all: the parser stops reading a list / '
+                             'reports a missing command where one was entered',
+                             'the empty command is taken for a command: `;` alone or a missing command is accepted'),
+    }
+    for fn, (want, key, when_true, when_false) in sorted(table.items()):
+        cx.require(fn in F.hir, '%s not found' % fn)
+        cx.fn(fn)
+        bad = []
+        for n, mk in shapes:
+            try:
+                got = _ShapeInterp(F).call_fn(fn, [mk()])
+            except _HUndecidable as e:
+                cx.require(False, '%s cannot be evaluated on the shape %s: %s' % (fn, n, e))
+                return
+            cx.require(isinstance(got, bool), '%s: result on %s is not a boolean (%r)' % (fn, n, got))
+            cx.site('%s(assigns=%d, words=%d, redirs=%d) = %s' % (fn.split('::')[-1], n['assigns'], n['words'], n['redirs'], got))
+            if got != want(n):
+                bad.append((n, got))
+        for which in (True, False):
+            rows = [n for n, got in bad if got is which]
+            if rows:
+                n = rows[0]
+                cx.violation(fn, '%s:wrongly-%s' % (key, str(which).lower()),
+                             '%s() answers %s for a command with %d assignment(s), %d word(s), %d redirection(s)%s: %s'
+                             % (fn.split('::')[-1], str(which).lower(), n['assigns'], n['words'], n['redirs'],
+                                ' (and %d more shapes)' % (len(rows) - 1) if len(rows) > 1 else '', when_true if which else when_false),
+                             loc='%s:%s' % (F.hir[fn].get('file'), F.hir[fn].get('line')))
+    # the consumer: the one place that takes the word out and forgets the command
+    pfn = "yash_syntax::parser::function::<impl yash_syntax::parser::core::Parser<'_, '_>>::short_function_definition"
+    body = F.inlined(F.main_body(pfn))
+    cx.fn(body.fn)
+    du = Q.DefUse(body)
+    pops = [(blk, t) for blk, t in Q.find_calls(body, [re.compile(r'^alloc::vec::Vec::<T, A>::(pop|remove|swap_remove|drain)$'),
+                                                         re.compile(r'^core::mem::(take|replace)$')])
+            if any(str(nm).split('.')[-1] == 'words' for nm in Q.arg_names(body, du, t)[:1])]
+    cx.require(pops, 'short_function_definition no longer takes the function name out of intro.words: R11 must be re-anchored')
+    for blk, t in pops:
+        ok = any(Q.cond_is_call(org, [_SC + '::is_one_word']) and lab == ('bool', True)
+                 for org, lab, edge in Q.implied_conditions(F, body, du, blk))
+        cx.site('short_function_definition: the name is taken out of intro.words at %s under is_one_word() == true: %s' % (body.loc(t), ok))
+        if not ok:
+            cx.violation(body.root, 'name-taken-without-one-word-guard',
+                         'short_function_definition takes the function name out of the introducing simple command on a path where '
+                         'is_one_word() was not found true: for `a=1 foo()` / `foo bar()` / `>x foo()` the rest of the command is dropped '
+                         '(or the unwrap / debug_assert panics) instead of the input being parsed as a simple command', loc=body.loc(t))
+
+
+# ---------------------------------------------------------------------------------------------------------------
+# R12: a Display wrapper around a syntax-tree node prints the WHOLE node
+_R12_SYN = re.compile(r'^yash_syntax::syntax::[A-Za-z_][A-Za-z0-9_]*(<.*>)?$')
+_R12_WRAP = re.compile(r'^(?:&(?:\'\w+ )?(?:mut )?|alloc::rc::Rc<|alloc::sync::Arc<|alloc::boxed::Box<|core::pin::Pin<)')
+
+
+def _r12_core(ty):
+    """The type behind references and owning pointers: `&&Rc<T>` -> `T`."""
+    ty = str(ty or '').strip()
+    while True:
+        m = _R12_WRAP.match(ty)
+        if not m:
+            return ty
+        ty = ty[m.end():]
+        if not m.group(0).startswith('&'):
+            ty = ty[:-1] if ty.endswith('>') else ty
+            ty = ty.split(', alloc::alloc::Global')[0] if ty.endswith(', alloc::alloc::Global') else ty
+        ty = ty.strip()
+
+
+_R12_SINKS = [re.compile(r'^core::fmt::Display::fmt$'), re.compile(r'^alloc::string::ToString::to_string$'),
+              re.compile(r'^core::fmt::rt::Argument::<.*>::new_display$'), re.compile(r'::AsDisplay(<.*>)?::as_display$')]
+
+
+def _r12_formatted_types(F, fn):
+    """Core types of everything the body of a Display::fmt hands to a formatting entry point (helpers of the module inlined)."""
+    out = []
+    for b0 in F.logical(F.bodies[fn].root) if fn in F.bodies else []:
+        b = F.inlined(b0)
+        for blk, t in b.calls():
+            if Q.callee_is(t, _R12_SINKS) and t.get('at'):
+                out.append((_r12_core(t['at'][0]), b, t))
+    return out
+
+
+@RS.rule('C06.R12', 'K-SIBLING', 'outside yash-syntax, a Display implementation that wraps a syntax-tree node shows the text of the WHOLE node: a '
+         'newtype around a yash_syntax::syntax type (BodyImpl, through which `typeset -f` / the function set print a stored function body) '
+         'hands the wrapped value itself to its Display - not a field of it - and no such implementation formats a part of a tree it holds '
+         'in place of the tree')
+def r12(cx):
+    F = cx.F
+    imps = F.impls if isinstance(F.impls, list) else list(F.impls.values())
+    wrappers, holders = 0, 0
+    for im in sorted(imps, key=lambda i: str(i.get('self'))):
+        if im.get('trait_def') != 'core::fmt::Display':
+            continue
+        sa = im.get('self_adt')
+        if not sa or sa.startswith('yash_syntax::') or sa not in F.adts:
+            continue
+        adt = F.adts[sa]
+        fields = [(v['name'], f['name'], _r12_core(f['ty'])) for v in adt.get('variants') or [] for f in v['fields']]
+        syn = [(vn, fname, ty) for vn, fname, ty in fields if _R12_SYN.match(ty) and ty in F.adts]
+        if not syn:
+            continue
+        fmts = [it['def'] for it in im.get('items') or [] if it.get('name') == 'fmt']
+        cx.require(len(fmts) == 1 and fmts[0] in F.bodies, 'Display for %s: fmt body not found' % sa)
+        fn = fmts[0]
+        cx.fn(fn)
+        holders += 1
+        formatted = _r12_formatted_types(F, fn)
+        whole = {ty for ty, _, _ in formatted}
+        held = {ty for _, _, ty in syn}
+        newtype = adt.get('kind') == 'Struct' and len(fields) == 1
+        short = sa.split('::')[-1]
+        if newtype:
+            wrappers += 1
+            ty = syn[0][2]
+            ok = ty in whole
+            cx.site('%s is a newtype around %s; its Display formats the whole %s: %s' % (short, ty.split('::')[-1], ty.split('::')[-1], ok))
+            if not ok:
+                parts = sorted({t.split('::')[-1] for t in whole if _R12_SYN.match(t)})
+                cx.violation(fn, 'wrapper-does-not-print-whole-node:%s' % ty.split('::')[-1],
+                             'Display for %s never hands the wrapped %s to its Display%s: what is shown to the user is not the text of the '
+                             'tree that is stored (for BodyImpl: `f() { echo x; } >&2` is listed by `typeset -f` as `f() { echo x; }` - the '
+                             'redirections of the function body are lost, and re-reading the listing defines a different function)'
+                             % (short, ty.split('::')[-1], (' (it formats only %s)' % ', '.join(parts)) if parts else ''),
+                             loc='%s:%s' % (F.bodies[fn].file, F.bodies[fn].line))
+        # every holder: a syntax-tree value that is formatted is one the type holds, not a piece taken out of it
+        for ty, b, t in formatted:
+            if _R12_SYN.match(ty) and ty in F.adts and ty not in held:
+                # a piece of a held node: its type is (transitively, one level) a field type of a held node
+                inside = [h for h in held if any(_r12_core(f['ty']) == ty for v in F.adts[h].get('variants') or [] for f in v['fields'])]
+                if inside and not (newtype and syn[0][2] not in whole):      # the newtype case is reported above, once
+                    cx.violation(fn, 'formats-part-of-held-node:%s' % ty.split('::')[-1],
+                                 'Display for %s formats a %s taken out of the %s it holds instead of the %s itself: the text shown is '
+                                 'that of a part of the tree' % (short, ty.split('::')[-1], inside[0].split('::')[-1], inside[0].split('::')[-1]),
+                                 loc=b.loc(t))
+        if not newtype:
+            cx.site('%s holds %s; syntax-tree values it formats: %s' % (short, ', '.join(sorted(h.split('::')[-1] for h in held)),
+                                                                      ', '.join(sorted({t.split('::')[-1] for t in whole if _R12_SYN.match(t)})) or 'none'))
+    cx.require(any(str(im.get('self_adt')) == 'yash_semantics::command::function_definition::BodyImpl' and im.get('trait_def') == 'core::fmt::Display'
+                   for im in imps) or wrappers >= 1, 'no Display newtype around a syntax-tree node found (BodyImpl gone?)')
+    cx.floor(wrappers, 2, 'Display newtypes around a yash_syntax::syntax node outside yash-syntax (BodyImpl, UnsetVariable)')
+    cx.floor(holders, 5, 'non-yash-syntax Display implementations whose self type holds a syntax-tree node')
+
+
 RS.rules.sort(key=lambda r: r.id)
 
 
@@ -2407,3 +2637,4 @@ RS.explanation += ' (R7) every Parser-driving FromStr rejects trailing text.'
 RS.explanation += ' (R3c) blanks that keep `a$ ()` and `( (` apart are printed.'
 RS.explanation += ' (R9) the recognisers of the forms that begin with `$` are found from the code (what the routine that consumes the `$` tries next; what produces a DollarSingleQuote unit) and each read they make of the character after the `$` - followed through peek_char and the None/false outcomes of consume_char_if/skip_if, and into lexer helpers - is made on the lexer they were given, never on the PlainLexer of disable_line_continuation().'
 RS.explanation += ' (R10) the text handed to every keyword-table lookup in yash-syntax (lexer token_id, printer first_word_is_keyword, helpers followed to their callers) is traced back to MaybeLiteral::to_string_if_literal / extend_literal of the whole Word; any other producer (source_string, a Location, the literal of one unit) is reported.'
+RS.explanation += ' (R11) SimpleCommand::is_one_word / is_empty are evaluated (HIR interpreter) on all 27 shapes (0/1/2 assignments, words, redirections) and must be true exactly for (0,1,0) / (0,0,0); short_function_definition takes the name out of intro.words only under is_one_word() == true. (R12) every Display implementation outside yash-syntax whose self type holds a yash_syntax::syntax node is enumerated from the impl table: a newtype (BodyImpl: the printed body of a stored function) must hand the whole wrapped node to a formatting entry point (Display::fmt, Argument::new_display, to_string), and none may format a field of a held node in its place.'
